@@ -476,6 +476,7 @@ class Universe:
         self.types = []     # instantiated top-level types to register
         self.n_types, self.max_depth, self.n_defs = n_types, max_depth, n_defs
         self.counter = 0
+        self.slice_elems = []
 
     # --- random built-in types -------------------------------------------------------------
     def rand_prim(self, allow_unit=True, ints_only=False):
@@ -719,6 +720,16 @@ class Universe:
             if t.rust() not in seen:
                 seen.add(t.rust()); out.append(t)
         self.types = out
+        # element types for the slice / iterator wrappers (C16): zero-copy and deep
+        zdefs = [self.inst(d) for d in self.defs if d.copy == 'zero' and not d.is_enum]
+        ddefs = [self.inst(d) for d in self.defs if d.copy != 'zero']
+        elems = [Prim('u8'), Prim('u32'), Prim('i64'), Prim('u128'), Prim('bool'), Prim('unit'), Array(Prim('u16'), 3),
+                 Tuple(Prim('u32'), 2), Range('t', Prim('u64')), Str(), Seq('vec', Prim('u32')), Sum('opt', [Prim('u64')]),
+                 Seq('vec', Str())] + zdefs[:3] + ddefs[:3]
+        seen, self.slice_elems = set(), []
+        for t in elems:
+            if t.rust() not in seen:
+                seen.add(t.rust()); self.slice_elems.append(t)
         return self
 
     def rust_source(self):
@@ -731,6 +742,13 @@ class Universe:
         for t in self.types:
             f = 'entry_z' if t.is_zc() else 'entry'
             out.append('        %s::<%s>("%s"),' % (f, t.rust(), t.rust()))
+        out.append('    ]')
+        out.append('}')
+        out.append('pub fn slice_registry() -> Vec<epsh::ops::SliceEntry> {')
+        out.append('    vec![')
+        for t in self.slice_elems:
+            f = 'slice_entry_zero' if t.is_zc() else 'slice_entry_deep'
+            out.append('        epsh::ops::%s::<%s>("%s"),' % (f, t.rust(), t.rust()))
         out.append('    ]')
         out.append('}')
         return '\n'.join(out) + '\n'
